@@ -276,7 +276,9 @@ func run(eventHandler EventHandler, listeners []*listener, options *Options, add
 	case None, Close:
 	case Shutdown:
 		// Nothing has been started, put the engine into the shutdown state so that
-		// the Engine handed to OnBoot doesn't pass for a running one.
+		// the Engine handed to OnBoot doesn't pass for a running one. The listeners go
+		// first: a Stop that sees the engine down must find nothing left open.
+		closeListeners(eng.listeners)
 		eng.inShutdown.Store(true)
 		return nil
 	}
